@@ -498,7 +498,8 @@ def run(pm, ctx):
     if not xl:
         ctx.unrecognised("C09-f", site, "no comparison with thresholds[node]")
     else:
-        c = xl[0].value
+        from ..pm import canon_node
+        c = canon_node(xl[0].value)
         left_name = norm_src(xl[0].targets[0])
         okc = isinstance(c.ops[0], ast.LtE) and norm_src(c.left) == "X[:, self.features[node]]" and norm_src(c.comparators[0]) == "self.thresholds[node]"
         routes = {norm_src(s_.targets[0]): norm_src(s_.value) for s_ in ast.walk(pred) if isinstance(s_, ast.Assign) and isinstance(s_.targets[0], ast.Subscript)
